@@ -1245,6 +1245,47 @@ fn check_shadow_case(tool: Tool, src: &str) -> (String, Vec<(String, Value)>) {
     (if fails.is_empty() { "ok".into() } else { "MISMATCH".into() }, fails)
 }
 
+// =============================================================================================
+// TH06-TH09 STD: instructions there are always 8 + 12 bytes.  A user signature that encodes fewer (or more) argument bytes
+// must either be rejected or, if the writer pads it, be described by the debug info at the offsets it really has.
+
+fn std06_short_cases() -> Vec<(Tool, String, String)> {
+    let mut v = vec![];
+    for game in [Game::Th06, Game::Th07, Game::Th08, Game::Th09] { for (sig, args) in [("S", "1"), ("Sf", "1, 2.0"), ("", ""), ("SS", "1, 2"), ("SSS", "1, 2, 3"), ("SSSS", "1, 2, 3, 4"), ("s", "1"), ("S__", "1"), ("S_", "1")] {
+        let map = format!("!stdmap\n!ins_signatures\n11 {sig}\n");
+        for before in [0usize, 1, 2] {
+            let mut body = String::new();
+            for k in 0..before { body += &format!("    ins_0({k}.0, 0.0, 0.0);\n"); }
+            body += &format!("    ins_11({args});\nlabA:\n+5:\n    ins_0(7.0, 0.0, 0.0);\nlabB:\n    ins_11({args});\n    ins_0(8.0, 0.0, 0.0);\n");
+            v.push((Tool::new(Kind::Std, game), format!("{STD06_META}script main {{\n{body}}}\n"), map.clone()));
+        }
+    } }
+    v
+}
+
+fn check_std06_short(tool: Tool, src: &str, map: &str) -> (String, Vec<(String, Value)>) {
+    let out = drive::compile(tool, src.as_bytes(), &CompileOpts { debug_info: true, mapfiles: vec![map], ..Default::default() });
+    let det = |what: String| json!({"family": "std06-short-signature", "tool": tool.name(), "source": src, "mapfile": map, "what": what});
+    if let Some(p) = &out.panic { return ("panic".into(), vec![(format!("std06-short:{}", p.signature()), det(p.text.clone()))]); }
+    let (Some(bytes), Some(dbg)) = (&out.bytes, &out.debug_info) else {
+        return if drive::has_error(&out.diag) { ("rejected-with-error".into(), vec![]) } else { ("rejected-silently".into(), vec![("std06-short:rejected-without-error".into(), det(out.diag.clone()))]) };
+    };
+    let dbg: Value = match serde_json::from_str(dbg) { Ok(v) => v, Err(e) => return ("bad-json".into(), vec![("std06-short:bad-json".into(), det(e.to_string()))]) };
+    let w = match m2::walk_std(bytes, tool.game) { Ok(w) => w, Err(e) => return ("unreadable".into(), vec![("std06-short:output-unreadable-by-M2".into(), det(e))]) };
+    let Some(first) = w.script.first() else { return ("empty".into(), vec![]) };
+    let real: Vec<u64> = w.script.iter().map(|i| (i.offset - first.offset) as u64).collect();
+    let real_end = w.script.last().map(|i| (i.offset + i.size - first.offset) as u64).unwrap_or(0);
+    let ds = &dbg["exported-scripts"][0];
+    let claimed: Vec<u64> = ds["instrs"].as_array().into_iter().flatten().filter_map(|i| i["offset"].as_u64()).collect();
+    let mut fails = vec![];
+    if claimed != real { fails.push((format!("std06-short:instr-offsets:{}", tool.name()), det(format!("debug info says {:?}, the file has {:?}", claimed, real)))); }
+    if ds["end-offset"].as_u64() != Some(real_end) { fails.push((format!("std06-short:end-offset:{}", tool.name()), det(format!("debug info says {}, the script is {} bytes", ds["end-offset"], real_end)))); }
+    for l in ds["labels"].as_array().into_iter().flatten() {
+        if let Some(o) = l["offset"].as_u64() { if !real.contains(&o) && o != real_end { fails.push((format!("std06-short:label-offset:{}", tool.name()), det(format!("label {} at {o}: not an instruction boundary of {:?}", l["name"], real)))); } }
+    }
+    (if fails.is_empty() { "accepted-and-consistent".into() } else { "MISMATCH".into() }, fails)
+}
+
 pub fn run(tier: &str) -> Report {
     let mut rep = Report::new("C18", tier, "model_checking");
     let thorough = rep.is_thorough();
@@ -1335,6 +1376,18 @@ pub fn run(tier: &str) -> Report {
         }
         rep.extra.insert("shadowed_const_cases".into(), json!(sc.len()));
     }
+    // TH06-TH09 STD with signatures that do not encode 12 bytes
+    {
+        let sc = std06_short_cases();
+        let res = par_map(&sc, Some(deadline), |_, (tool, src, map)| check_std06_short(*tool, src, map));
+        for r in res.into_iter() {
+            let Some((class, fails)) = r else { continue; };
+            rep.evaluations += 1; rep.states += 1; rep.transitions += 1; rep.traces_validated += 1; rep.nontrivial += 1;
+            rep.outcome(&format!("std06-short:{class}"));
+            for (sig, d) in fails { rep.fail(format!("C18:{sig}"), d); }
+        }
+        rep.extra.insert("std06_short_signature_cases".into(), json!(sc.len()));
+    }
     rep.extra.insert("cli_conformance_cases_identical".into(), json!(cli_ok));
     rep.extra.insert("cli_conformance_cases".into(), json!(cli_set.len()));
     if !discard_samples.is_empty() { rep.extra.insert("discard_samples".into(), json!(discard_samples)); }
@@ -1365,6 +1418,13 @@ pub fn run(tier: &str) -> Report {
 }
 
 pub fn replay(detail: &Value) -> i32 {
+    if detail["family"] == "std06-short-signature" {
+        let Some((tool, src, map)) = std06_short_cases().into_iter().find(|(t, s, m)| t.name() == detail["tool"].as_str().unwrap_or("") && s == detail["source"].as_str().unwrap_or("") && m == detail["mapfile"].as_str().unwrap_or("")) else { println!("unknown case"); return 2; };
+        let (class, fails) = check_std06_short(tool, &src, &map);
+        println!("class: {class}");
+        for (sig, d) in &fails { println!("FAIL C18:{sig}\n  {}", d["what"]); }
+        return if fails.is_empty() { 0 } else { 1 };
+    }
     if detail["family"] == "shadowed-consts" {
         let Some((tool, src)) = shadow_const_cases().into_iter().find(|(t, s)| t.name() == detail["tool"].as_str().unwrap_or("") && s == detail["source"].as_str().unwrap_or("")) else { println!("unknown case"); return 2; };
         let (class, fails) = check_shadow_case(tool, &src);
